@@ -358,6 +358,23 @@ func rulesC11(c *Ctx) {
 		c.Pin("endPOST timer.Reset", nReset, 1)
 		st := c.Fn(pM, "sessionInfo", "startPOST")
 		sg := st.Graph()
+		// the first POST pauses the timer: on the refs == 0 edge every path calls timer.Stop()
+		okPause := false
+		for _, t := range sg.edgesWhere(func(a Atom) bool {
+			x, y, op, isCmp := binaryCmp(a.E)
+			z, isZ := st.ConstInt(y)
+			return isCmp && op == token.EQL && a.Val && st.IsField(x, refs) && isZ && z == 0
+		}) {
+			okPause = sg.allPathsPass(t, func(v int) bool {
+				for _, call := range st.AllCalls(sg.Node(v), false) {
+					if fn := st.Callee(call); fn != nil && fn.Name() == "Stop" && fn.Pkg() != nil && fn.Pkg().Path() == "time" {
+						return true
+					}
+				}
+				return false
+			})
+		}
+		c.Check(okPause, "startPOST:first-POST-stops-the-timer", st, nil, "when no other POST is running (refs == 0) startPOST always stops the idle timer")
 		for _, call := range st.AllCalls(st.Body, false) {
 			if fn := st.Callee(call); fn != nil && fn.Name() == "Stop" {
 				inc := false
